@@ -233,6 +233,45 @@ CLAIMS = {
    note=NOTE + "C15: scipy design matrices and the prior-sample mean/scale enter as data; jnp.clip keyword shim for the spline constructor under the pinned JAX; the joint density per band is the C05 model with suffix _band.",
    technique="Lean 4 theorems (logistic/convex-combination bounds, kernel-decided range and relabelling tables on regenerated rules, site lists) + multi-band trace correspondence + structural oracle",
    design="7/C15"),
+ "C02": dict(
+   text=("Proof, partial. Proved over ℝ about the code-level kernels: the analytic profile is a function of the elliptical radius z alone, strictly "
+         "decreasing in z (positive flux, b_n, n > 0); z = 0 exactly at (X, Y) = (xc, yc) with X the column and Y the row, so the isophotes are nested "
+         "ellipses centred there; t·r_eff along u(θ) = (−sin θ, cos θ) — the +y axis rotated towards −x by θ — reaches z = |t| and t·(1−ellip)·r_eff along the "
+         "perpendicular reaches z = |t|: r_eff is the semi-major axis of the z = 1 isophote, 1−ellip the axis ratio, θ the position angle from +y towards −x, "
+         "defined modulo π (u(θ+π) = −u(θ)); point symmetry about the centre; each real-space Gaussian component is a function of the same z (σ = r_eff·s, "
+         "q = 1−ellip), the Fourier-space components apply the same rotation to the frequency vector with phase −2π(fx·xc + fy·yc): one convention across "
+         "the three paths; hybrid broadening σ_obs² = σ² + σ_p², (q_obs σ_obs)² = q²σ² + σ_p². Not proved: that z = 1 encloses half of the light (b_n approximate: "
+         "observed 0.489…0.497 within 0.50 ± 0.02) and every moment-based clause on discretised PSF-convolved images — observed with the property's "
+         "tolerances against an independent float64 reference renderer (exact b_n, pixel integration with recursive cusp refinement, spatial convolution), "
+         "plus absolute checks of centre and angle. Tie: render correspondence on elongated sources."),
+   note=NOTE + "C02: photutils-derived guesses belong to C12; moments are Gaussian-weighted with adaptive centre.",
+   technique="Lean 4 theorems (trigonometric identities on the elliptical radius, monotonicity via rpow/exp, broadening algebra) + render correspondence + moment oracle vs independent reference renderer",
+   design="7/C02"),
+ "C04": dict(
+   text=("Proof, partial. Proved over ℝ: the analytic profile equals flux/(r_eff²(1−ellip))·S_n(z) and the Gaussian mixture (amps = flux·A_k, σ_k = r_eff·s_k, "
+         "q = 1−ellip) equals flux/(r_eff²(1−ellip))·M(z) with the SAME elliptical radius z, so mixture/analytic depends on (n, z) only — for every centre, "
+         "angle, ellipticity, flux and radius: the 7-parameter approximation-error claim is reduced to a 2-parameter surface, which the residual scans; the "
+         "real-space components of the hybrid renderer are the intrinsic Gaussians exactly broadened by a round Gaussian (C02); hybrid with "
+         "num_pixel_render = 0 is identical to Fourier (C20). Not proved: every quantitative bound — observed with the property's tolerances against the "
+         "independent float64 reference (12 %/10 %, 18 %/15 %, 2 %/2 %), hybrid vs Fourier 6e-3 for Gaussian PSFs near the image centre, amplitude table vs "
+         "direct decomposition at the tabulated indices 1e-3 (measured 2e-14, float64). Tie: render correspondence + the Lean model of the Shajib "
+         "decomposition vs the real sersic_gauss_decomp at random (n, r_eff, flux)."),
+   note=NOTE + "C04: interpax interpolation enters as data; the reference renderer is independent of both the code and the Lean model.",
+   technique="Lean 4 theorems (factorisation of both profiles through the same elliptical radius; reduction to an (n, z) surface) + render/decomposition correspondence + numerical residual vs independent reference",
+   design="7/C04"),
+ "C10": dict(
+   text=("Proof, partial (what ℝ can carry). Proved on the support defined by the REGENERATED prior bounds (r_eff ≥ 0.5, 0 ≤ ellip ≤ 0.9, 0.65 ≤ n ≤ 8): r_eff, "
+         "1−ellip, n > 0; b_n > 0 for the regenerated coefficients; Γ(2n) > 0; the amplitude denominator positive; the radicand of z non-negative; the "
+         "arguments of the σ-grid logarithms positive; every mixture width positive; broadened widths positive and axis-ratio radicands non-negative; z = 0 "
+         "only at (X, Y) = (xc, yc); the radial law is differentiable at every z > 0 with derivative −(b/n)·z^{1/n−1}·exp(…), whose factor equals ε^{1−n} at "
+         "z = ε^n (unbounded as z → 0⁺ for n > 1): the only candidates for singular gradients are pixel evaluations exactly on the source centre; the "
+         "Gaussian kernels are differentiable everywhere. Not provable over ℝ (runtime): float32 overflow/underflow at the corners of the support and reverse-mode "
+         "0·∞ — searched by the oracle: value and gradient of random functionals of the image, eager and jit, float32, all renderers and profile types, lattice "
+         "(integers, half-integers, corners, up to 20 px off-frame) × corners of the support. The theorem told the search where to look; the defect it found "
+         "(NaN gradients with the centre on a pixel centre) is fixed. Tie: render correspondence on lattice positions with NaN patterns compared."),
+   note=NOTE + "C10: IEEE semantics are opaque to the kernel; this is why the claim is partial.",
+   technique="Lean 4 theorems (positivity on the regenerated support, differentiability and singular factor of the radial law) + lattice render correspondence + value/gradient finiteness oracle",
+   design="7/C10"),
 }
 
 checks, na = [], []
